@@ -194,3 +194,54 @@ class Stats:
             for key, val in other.get(section, {}).items():
                 dst[key] = dst.get(key, 0) + val
         return into
+
+
+# --------------------------------------------------------------------------------------
+# share-nothing execution
+
+
+def run_isolated(func, *args):
+    """Runs func(*args) in a forked child and returns its (picklable) result.
+
+    Each world of a pair runs in its own child forked from the same parent state, so that nothing
+    process-global (a memoisation cache, a module-level dict) carries from one world to the other or
+    from one run to the next: the two fits share nothing but the code, like two user processes.
+    """
+    import os  # pylint: disable=C0415
+    import pickle  # pylint: disable=C0415
+
+    read_fd, write_fd = os.pipe()
+    pid = os.fork()
+    if pid == 0:  # child
+        status = 0
+        try:
+            os.close(read_fd)
+            try:
+                payload = pickle.dumps(("ok", func(*args)), protocol=pickle.HIGHEST_PROTOCOL)
+            except BaseException as err:  # pylint: disable=W0718
+                import traceback  # pylint: disable=C0415
+
+                payload = pickle.dumps(("harness_error", f"{type(err).__name__}: {err}\n{traceback.format_exc(limit=6)}"))
+            with os.fdopen(write_fd, "wb") as out:
+                out.write(payload)
+        except BaseException:  # pylint: disable=W0718
+            status = 1
+        finally:
+            os._exit(status)  # pylint: disable=W0212
+    os.close(write_fd)
+    chunks = []
+    with os.fdopen(read_fd, "rb") as inp:
+        while True:
+            block = inp.read(1 << 20)
+            if not block:
+                break
+            chunks.append(block)
+    _, code = os.waitpid(pid, 0)
+    if code != 0 or not chunks:
+        raise HarnessError(f"isolated world died (status {code})")
+    kind, value = pickle.loads(b"".join(chunks))
+    if kind != "ok":
+        raise HarnessError(f"isolated world raised {value}")
+    return value
+
+
